@@ -19,6 +19,8 @@ NAME_SCHEMES = [
 
 def expr_src(e, nm):
     op, a, b, c = e
+    if op == "addc" and c == 1 and nm.get("#closure"):
+        return f"{nm.get(a, a)} + KC1"          # the literal 1 comes from a closure variable of the enclosing factory
     A = nm.get(a, a)
     B = nm.get(b, b)
     if op == "v":
@@ -90,8 +92,12 @@ def block_src(b, nm, ind):
     return out
 
 
-def program_src(prog, ret, scheme=0, fname="f"):
-    nm = NAME_SCHEMES[scheme]
+def program_src(prog, ret, scheme=0, fname="f", closure=False):
+    """closure=True: the script function is defined inside a factory and takes its constant 1 from the factory's
+    argument KC1 while the module has a global KC1 with another value (script-time constants are read from the closure)"""
+    nm = dict(NAME_SCHEMES[scheme])
+    if closure:
+        nm["#closure"] = True
     lines = ["from typing import Tuple", "from onnxscript import script, INT64, BOOL", "from onnxscript import opset18 as op", ""]
     if uses(prog, "call"):
         lines += ["@script(default_opset=op)", "def h(u: INT64) -> INT64:", "    return u * 2 + 1", ""]
@@ -103,6 +109,12 @@ def program_src(prog, ret, scheme=0, fname="f"):
     if uses(prog, "attr"):
         params += ", alpha: int = 2"
     rt = "INT64" if len(ret) == 1 else "Tuple[" + ", ".join(["INT64"] * len(ret)) + "]"
+    if closure:
+        lines += ["KC1 = 9", "", "def make(KC1):", "    @script(default_opset=op)", f"    def {fname}({params}) -> {rt}:"]
+        lines += block_src(prog, nm, 2)
+        lines.append("        return " + ", ".join(nm[v] for v in ret))
+        lines += [f"    return {fname}", "", f"{fname} = make(1)"]
+        return "\n".join(lines) + "\n"
     lines += ["@script(default_opset=op)", f"def {fname}({params}) -> {rt}:"]
     lines += block_src(prog, nm, 1)
     lines.append("    return " + ", ".join(nm[v] for v in ret))
